@@ -247,6 +247,12 @@ def cfg_filter(cfg, rng):
 
 
 def pol_tweak(pol, cfg, rng):
+    if rng.random() < 0.25:
+        # rigged deals: made-hand boards and hole cards from their
+        # neighbourhood (playing the board, counterfeits, exact ties)
+        pol['deal'] = 'rigged'
+        cfg['autos'] = [a for a in cfg['autos']
+                        if a not in ('HOLE_DEALING', 'BOARD_DEALING')]
     if rng.random() < 0.4:
         pol['fork_p'] = 0.03     # continue on a deepcopy mid-hand
     pol['policy'] = rng.choice(['passive', 'passive', 'aggressive', 'allin',
